@@ -22,6 +22,7 @@ import (
 	"strconv"
 	"strings"
 	"sync"
+	"sync/atomic"
 	"time"
 
 	"github.com/mutagen-io/mutagen/pkg/filesystem"
@@ -32,7 +33,15 @@ import (
 	"verif/harness/hx"
 )
 
-const waitDuration = 3 * time.Second // three polling intervals
+// No verdict depends on a fixed sleep. Waiting is event-based: polling scans
+// are counted through the filesystem fault hook (every scan opens the case's
+// sentinel directory), and the only timeout that can decide a verdict is
+// verdictTimeout, far beyond anything a healthy run needs even on a loaded host.
+const (
+	verdictTimeout = 90 * time.Second
+	peekInterval   = 20 * time.Millisecond
+	iterationsK    = 3 // polling scans that must start after a modification: then 2 complete iterations lie behind
+)
 
 var hasherFactory = synchronization.Version_Version1.DefaultHashingAlgorithm().Factory()
 
@@ -147,7 +156,23 @@ var (
 	faultNames = map[string]bool{}
 )
 
+// scan counting: sentinel directory name -> the case's counters.
+type scanCounter struct {
+	polls atomic.Int64 // scans of the sentinel not made by the harness's own Scan call
+	own   atomic.Bool  // the harness is inside its own Scan call
+}
+
+var scanCounters sync.Map
+
 func faultHook(operation, name string) error {
+	if operation == "opendir" {
+		if v, ok := scanCounters.Load(name); ok {
+			if sc := v.(*scanCounter); !sc.own.Load() {
+				sc.polls.Add(1)
+			}
+		}
+		return nil
+	}
 	if operation != "unlink" && operation != "rmdir" {
 		return nil
 	}
@@ -190,6 +215,28 @@ type caseRun struct {
 	fileNames      []string
 	dirNames       []string
 	childNames     []string
+	sentinel       string
+	scans          *scanCounter
+}
+
+// pendingSignal peeks at the poll signal.
+func (c *caseRun) pendingSignal() bool { return local.VerifC42PollSignalPending(c.ep) }
+
+// awaitSignal waits (event-based) until the poll signal is pending and consumes
+// it; false only after verdictTimeout.
+func (c *caseRun) awaitSignal() bool {
+	deadline := time.Now().Add(verdictTimeout)
+	for !c.pendingSignal() {
+		if time.Now().After(deadline) {
+			return false
+		}
+		time.Sleep(peekInterval)
+	}
+	c.ep.Poll(context.Background()) // returns at once, consuming the signal
+	c.log("Q1")
+	c.signalSince = true
+	c.counts["signal:seen"]++
+	return true
 }
 
 func (c *caseRun) bad(class, format string, a ...any) {
@@ -335,7 +382,9 @@ func (c *caseRun) doEdit(target content) {
 }
 
 func (c *caseRun) doScan(full bool) {
+	c.scans.own.Store(true)
 	snap, err, _ := c.ep.Scan(context.Background(), nil, full)
+	c.scans.own.Store(false)
 	if err != nil {
 		c.bad("scan-error", "%v", err)
 		return
@@ -507,25 +556,16 @@ func (c *caseRun) doTransition() {
 			// announce that something happened
 			c.doEdit(before)
 			c.counts["scenario:immediate-reversal"]++
-			c.waits++
-			time.Sleep(waitDuration)
-			c.log("W")
-			if !c.doCheck() {
-				c.bad("transition-without-signal", "no poll signal %v after a transition that changed the disk (and was undone at once)", waitDuration)
+			if !c.awaitSignal() {
+				c.log("Z")
+				c.bad("transition-without-signal", "no poll signal %v after a transition that changed the disk (and was undone at once)", verdictTimeout)
 			}
 			return
 		}
 		// a transition that changed the disk strobes the poll signal
-		ctx, cancel := context.WithTimeout(context.Background(), 5*time.Second)
-		c.ep.Poll(ctx)
-		got := ctx.Err() == nil
-		cancel()
-		if got {
-			c.log("Q1")
-			c.signalSince = true
-		} else {
-			c.log("Q0")
-			c.bad("transition-without-signal", "no poll signal within 5 s of a transition that changed the disk")
+		if !c.awaitSignal() {
+			c.log("Z")
+			c.bad("transition-without-signal", "no poll signal within %v of a transition that changed the disk", verdictTimeout)
 		}
 	}
 }
@@ -545,23 +585,44 @@ func (c *caseRun) doCheck() bool {
 	return false
 }
 
-// doWait sleeps several polling intervals, then checks the signal: a
-// modification the controller has not seen must have been announced.
+// doWait waits until the poll signal is pending or at least iterationsK polling
+// scans have started since now (so that complete polling iterations have
+// demonstrably happened after the last modification). Only if the controller
+// has not been shown the current content and no signal has been raised does it
+// go on waiting for the signal — up to verdictTimeout — before it concludes
+// that the modification was missed (journal `Z`).
 func (c *caseRun) doWait() {
 	c.waits++
-	time.Sleep(waitDuration)
-	c.log("W")
 	c.counts["op:W"]++
-	c.doCheck()
-	disk := coldWalk(c.root).String()
-	if c.haveView && disk != c.view && !c.signalSince {
-		c.counts["finding:missed-modification"]++
-		c.bad("missed-modification", "the root is %q, the last scan showed %q, and %v after the modification no poll signal has been raised", disk, c.view, waitDuration)
+	start := c.scans.polls.Load()
+	deadline := time.Now().Add(verdictTimeout)
+	for !c.pendingSignal() && c.scans.polls.Load() < start+iterationsK && time.Now().Before(deadline) {
+		time.Sleep(peekInterval)
 	}
+	if c.scans.polls.Load() > start {
+		c.log("W") // at least one polling scan happened
+	}
+	disk := coldWalk(c.root).String()
+	expected := c.haveView && disk != c.view && !c.signalSince
+	if c.pendingSignal() {
+		c.awaitSignal()
+		return
+	}
+	if !expected {
+		return
+	}
+	if c.awaitSignal() {
+		return
+	}
+	c.log("Z")
+	c.counts["finding:missed-modification"]++
+	c.bad("missed-modification", "the root is %q, the last scan showed %q; %d polling scans have started since the wait began and %v later no poll signal has been raised",
+		disk, c.view, c.scans.polls.Load()-start, verdictTimeout)
 }
 
-// doBreak replaces the root by a symbolic link for several polling intervals
-// (polling scans fail), then puts it back: polling must go on afterwards.
+// doBreak replaces the root by a symbolic link (polling scans fail), waits until
+// failing scans have demonstrably happened (each one strobes), then puts the
+// root back: polling must go on afterwards.
 func (c *caseRun) doBreak() {
 	away := c.root + ".away"
 	cur := coldWalk(c.root)
@@ -571,15 +632,23 @@ func (c *caseRun) doBreak() {
 	must(os.Symlink(away, c.root))
 	c.log("B1")
 	c.waits++
-	time.Sleep(waitDuration)
-	c.log("W")
-	c.doCheck()
+	// three signals: whatever was owed before, the later ones come from failed scans
+	for i := 0; i < 3; i++ {
+		if !c.awaitSignal() {
+			c.log("Z")
+			c.bad("polling-stopped", "no further poll signal within %v while the root cannot be opened (signal %d of 3)", verdictTimeout, i+1)
+			break
+		}
+	}
 	must(os.Remove(c.root))
 	c.log("B0")
 	must(os.Rename(away, c.root))
 	c.log(fmt.Sprintf("E%d", c.id(cur)))
 	c.sinceTransEnd = append(c.sinceTransEnd, cur.String())
 	c.counts["scenario:root-unreadable"]++
+	if c.oracle != "" {
+		return
+	}
 	// the controller rescans; what happens next must still be noticed
 	c.doScan(false)
 	if c.oracle != "" {
@@ -596,10 +665,14 @@ func runCase(seed uint64, id int, base string) (line, impl, oracle string, count
 	c.fileNames = []string{"f" + sid + "a", "f" + sid + "b"}
 	c.dirNames = []string{"d" + sid + "a", "d" + sid + "b"}
 	c.childNames = []string{"c" + sid + "x", "c" + sid + "y", "c" + sid + "z"}
+	c.sentinel = "z" + sid + "s"
+	c.scans = &scanCounter{}
+	scanCounters.Store(c.sentinel, c.scans)
+	defer scanCounters.Delete(c.sentinel)
 	os.RemoveAll(c.root)
 	must(os.MkdirAll(c.root, 0o755))
 	defer os.RemoveAll(c.root)
-	start := content{}
+	start := content{c.sentinel: "d"}
 	for i := r.Intn(5); i > 0; i-- {
 		start = c.randomEdit(start)
 	}
@@ -714,12 +787,9 @@ func journalOracle(line string) string {
 			}
 		case tok == "Q1":
 			signal = true
-		case tok == "W":
-			if i+3 < len(f) && f[i+3] == "Q1" {
-				signal = true
-			}
+		case tok == "Z":
 			if haveView && disk != view && !signal {
-				return fmt.Sprintf("class=missed-modification the root has content %s, the last scan showed %s, no signal after the wait (event #%d)", disk, view, i)
+				return fmt.Sprintf("class=missed-modification the root has content %s, the last scan showed %s, no signal after polling iterations and the grace period (event #%d)", disk, view, i)
 			}
 		}
 	}
